@@ -433,7 +433,7 @@ def structure_errors(tri):
         if tuple(sorted(s)) != tuple(s) or len(set(s)) != len(s):
             errs.append(("index_consistent", f"simplex {s} is not a sorted tuple of distinct vertices"))
         for v in s:
-            if not (0 <= v < n) or s not in tri.vertex_to_simplices[v]:
+            if not (0 <= v < n) or v >= len(tri.vertex_to_simplices) or s not in tri.vertex_to_simplices[v]:
                 errs.append(("index_consistent", f"simplex {s} missing from vertex_to_simplices[{v}]"))
     d = len(tri.vertices[0])
     cnt = {}
